@@ -3,7 +3,12 @@
 import json, os, subprocess
 R = os.path.dirname(os.path.dirname(os.path.abspath(__file__)))
 props = [json.loads(l) for l in open(os.path.join(R, "properties.jsonl"))]
-checks = json.load(open(os.path.join(R, "checks.json")))
+import glob
+checks = {}
+for p in sorted(glob.glob(os.path.join(R, "sim", "engines", "*", "checks.json"))):
+    for k, v in json.load(open(p)).items():
+        v.setdefault("engine", os.path.basename(os.path.dirname(p)))
+        checks[k] = v
 na = json.load(open(os.path.join(R, "na.json")))
 hooks = subprocess.run(["git", "-C", "/repo", "log", "--format=%H %s", "--grep", "^verif:"], stdout=subprocess.PIPE, text=True).stdout.strip().splitlines()
 engines = {}
